@@ -675,6 +675,10 @@ def _group_lines():
 
 def execute(scenario, chooser):
     sc = scenario
+    # the same code is pre-emptible in every run of every family: a run's
+    # event log must not depend on what the process ran before
+    env.install_threads()
+    _scope_group_commands()
     if sc['family'] == 'expiry':
         return _execute_expiry(sc, chooser)
     viol = []
